@@ -18,7 +18,7 @@ RULE = ("completeness: consistent chains whose blocks have every tx count 1..64 
         "equal to the model. soundness (fault enumeration on the stored bytes): every single-bit flip of the merkle-root field and of the "
         "prev-hash field of chosen blocks, sampled (quick) / all (thorough) single-bit flips of the txid-covered transaction bytes, a "
         "block swapped for a foreign block, a wrong block 0 per coin: the run must exit non-zero, name that height, and leave no "
-        "final-named output. A verified run over more than 2^16 blocks and windows crossing round heights (10^k, 2^k, halving multiples; sparse index) must be accepted. distinct = (fault kind, field, position class, coin, start kind) signatures")
+        "final-named output. A verified run over more than 2^16 blocks and windows crossing round heights (10^k, 2^k, halving multiples; sparse index) must be accepted. Consistent chains with varied header times (backward steps, last block dated before the first, future-dated, 32-bit edges, constant) must be accepted for every --start. distinct = (fault kind, field, position class, coin, start kind) signatures")
 
 ERR_RE = re.compile(r"Error at height (\d+):")
 
